@@ -355,4 +355,106 @@ Proof.
       apply Fr. reflexivity.
 Qed.
 
+(** ** collapse towards an end point, the half-cell whose next edge is on the boundary (the code repaired by 667f50e):
+    the triangle pe -> e -> ne -> pe with ne (and e) 2-free disappears entirely -- its three darts end with all images
+    null and flagged, the former 2-neighbour of pe becomes a boundary dart -- and nothing else changes *)
+Theorem halfcell_to_base_boundary E n ks pe e ne c w cnt w' cnt' :
+  let x := beta w 2 pe in
+  NoDup [pe; e; ne; x] -> pe <> 0 -> e <> 0 -> ne <> 0 ->
+  beta w 1 pe = e -> beta w 1 e = ne -> beta w 1 ne = pe ->
+  beta w 2 ne = 0 -> beta w 2 e = 0 -> (x <> 0 -> beta w 2 x = pe) ->
+  run E (collapse_halfcell_to_base n ks pe e ne) c w cnt = (Done tt, w', cnt') ->
+  (forall i y, beta w' i y =
+     if (y =? pe) || (y =? e) || (y =? ne) then (if i <? 3 then 0 else beta w i y)
+     else if (i =? 2) && (y =? x) && negb (x =? 0) then 0
+     else beta w i y) /\
+  (forall y, unused w' y = if (y =? pe) || (y =? e) || (y =? ne) then true else unused w y).
+Proof.
+  intros x. remember (beta w 2 pe) as x' eqn:Ex. subst x. rename x' into x.
+  intros Hnd P0 E0 N0 B1 B2 B3 Zn Ze Hx Hr.
+  assert (D : pe <> e /\ pe <> ne /\ pe <> x /\ e <> ne /\ e <> x /\ ne <> x).
+  { repeat match goal with Hq : NoDup (_ :: _) |- _ => inversion Hq; clear Hq; subst end.
+    cbn [In] in *. repeat split; intros Q; intuition congruence. }
+  destruct D as (Q1 & Q2 & Q3 & Q4 & Q5 & Q6).
+  unfold collapse_halfcell_to_base in Hr.
+  apply rd_stepY' in Hr. rewrite Zn in Hr.
+  apply rd_stepY' in Hr. apply rd_stepY' in Hr.
+  stepU (@unsew1_stepU unit) Hr F1 U1. rewrite B2 in F1.
+  stepU (@unsew1_stepU unit) Hr F2 U2.
+  assert (V2 : beta wk 1 pe = e) by (lk; auto). rewrite V2 in F2.
+  stepU (@unsew1_stepU unit) Hr F3 U3.
+  assert (V3 : beta wk0 1 ne = pe) by (lk; auto). rewrite V3 in F3.
+  change (0 =? 0) with true in Hr. cbn [negb] in Hr.
+  apply rd_stepY' in Hr.
+  assert (R : beta wk1 2 pe = x) by (lk; auto). rewrite R in Hr.
+  destruct (N.eqb_spec x 0) as [Zx|Nx]; cbn [negb] in Hr.
+  - (* pe itself on the boundary *)
+    cbn [bind run] in Hr.
+    stepU (@remove_stepU unit) Hr F5 U5. stepU (@remove_stepU unit) Hr F6 U6.
+    assert (Hl : step_to w' (beta wk3) (p_remove (unused wk3) ne)).
+    { unfold remove_dart_tx in Hr. cbn [run bind rdU wrU] in Hr. destruct (e_dom E (XUnused ne)); [|discriminate Hr]. cbn [run] in Hr.
+      injection Hr as <- <-. split.
+      - intros i d. unfold beta. rewrite upd_other by discriminate. reflexivity.
+      - intros d. unfold p_remove. apply unused_upd_unused. }
+    destruct Hl as [F7 U7]. unfold img_eq, fl_eq, p_remove in F7, U7.
+    split.
+    + intros i y. rewrite andb_false_r.
+      destruct (N.eqb_spec i 0) as [->|Ni0]; [|destruct (N.eqb_spec i 1) as [->|Ni1]; [|destruct (N.eqb_spec i 2) as [->|Ni2]]].
+      * change (0 <? 3) with true. lk.
+        destruct (N.eqb_spec y pe) as [->|M1]; [simpl_ne; reflexivity|].
+        destruct (N.eqb_spec y e) as [->|M2]; [simpl_ne; reflexivity|].
+        destruct (N.eqb_spec y ne) as [->|M3]; [simpl_ne; reflexivity|]. simpl_ne. reflexivity.
+      * change (1 <? 3) with true. lk.
+        destruct (N.eqb_spec y pe) as [->|M1]; [simpl_ne; reflexivity|].
+        destruct (N.eqb_spec y e) as [->|M2]; [simpl_ne; reflexivity|].
+        destruct (N.eqb_spec y ne) as [->|M3]; [simpl_ne; reflexivity|]. simpl_ne. reflexivity.
+      * change (2 <? 3) with true. lk.
+        destruct (N.eqb_spec y pe) as [->|M1]; [simpl_ne; rewrite <- Ex, Zx; reflexivity|].
+        destruct (N.eqb_spec y e) as [->|M2]; [simpl_ne; exact Ze|].
+        destruct (N.eqb_spec y ne) as [->|M3]; [simpl_ne; exact Zn|]. simpl_ne. reflexivity.
+      * assert (Hi : (i <? 3) = false) by (clear - Ni0 Ni1 Ni2; apply N.ltb_ge; lia). rewrite Hi.
+        rewrite F7, F6, F5, F3, F2, F1.
+        rewrite (proj2 (N.eqb_neq i 0) Ni0), (proj2 (N.eqb_neq i 1) Ni1). cbn [andb].
+        destruct ((y =? pe) || (y =? e) || (y =? ne)); reflexivity.
+    + intros y. rewrite U7, U6, U5, U3, U2, U1.
+      destruct (N.eqb_spec y pe) as [->|M1]; [simpl_ne; reflexivity|].
+      destruct (N.eqb_spec y e) as [->|M2]; [simpl_ne; reflexivity|].
+      destruct (N.eqb_spec y ne) as [->|M3]; [simpl_ne; reflexivity|]. simpl_ne. reflexivity.
+  - (* pe glued to x: the 2-unsew frees both *)
+    specialize (Hx Nx).
+    stepU (@unsew2_stepU unit) Hr F4 U4. rewrite R in F4.
+    stepU (@remove_stepU unit) Hr F5 U5. stepU (@remove_stepU unit) Hr F6 U6.
+    assert (Hl : step_to w' (beta wk4) (p_remove (unused wk4) ne)).
+    { unfold remove_dart_tx in Hr. cbn [run bind rdU wrU] in Hr. destruct (e_dom E (XUnused ne)); [|discriminate Hr]. cbn [run] in Hr.
+      injection Hr as <- <-. split.
+      - intros i d. unfold beta. rewrite upd_other by discriminate. reflexivity.
+      - intros d. unfold p_remove. apply unused_upd_unused. }
+    destruct Hl as [F7 U7]. unfold img_eq, fl_eq, p_remove in F7, U7.
+    cbn [negb].
+    split.
+    + intros i y. rewrite andb_true_r.
+      destruct (N.eqb_spec i 0) as [->|Ni0]; [|destruct (N.eqb_spec i 1) as [->|Ni1]; [|destruct (N.eqb_spec i 2) as [->|Ni2]]].
+      * change (0 <? 3) with true. change (0 =? 2) with false. lk.
+        destruct (N.eqb_spec y pe) as [->|M1]; [simpl_ne; reflexivity|].
+        destruct (N.eqb_spec y e) as [->|M2]; [simpl_ne; reflexivity|].
+        destruct (N.eqb_spec y ne) as [->|M3]; [simpl_ne; reflexivity|]. simpl_ne. reflexivity.
+      * change (1 <? 3) with true. change (1 =? 2) with false. lk.
+        destruct (N.eqb_spec y pe) as [->|M1]; [simpl_ne; reflexivity|].
+        destruct (N.eqb_spec y e) as [->|M2]; [simpl_ne; reflexivity|].
+        destruct (N.eqb_spec y ne) as [->|M3]; [simpl_ne; reflexivity|]. simpl_ne. reflexivity.
+      * change (2 <? 3) with true. change (2 =? 2) with true. lk.
+        destruct (N.eqb_spec y pe) as [->|M1]; [simpl_ne; reflexivity|].
+        destruct (N.eqb_spec y e) as [->|M2]; [simpl_ne; exact Ze|].
+        destruct (N.eqb_spec y ne) as [->|M3]; [simpl_ne; exact Zn|].
+        destruct (N.eqb_spec y x) as [->|M4]; [simpl_ne; reflexivity|]. simpl_ne. reflexivity.
+      * assert (Hi : (i <? 3) = false) by (clear - Ni0 Ni1 Ni2; apply N.ltb_ge; lia). rewrite Hi.
+        rewrite F7, F6, F5, F4, F3, F2, F1.
+        rewrite (proj2 (N.eqb_neq i 0) Ni0), (proj2 (N.eqb_neq i 1) Ni1), (proj2 (N.eqb_neq i 2) Ni2). cbn [andb].
+        destruct ((y =? pe) || (y =? e) || (y =? ne)); reflexivity.
+    + intros y. rewrite U7, U6, U5, U4, U3, U2, U1.
+      destruct (N.eqb_spec y pe) as [->|M1]; [simpl_ne; reflexivity|].
+      destruct (N.eqb_spec y e) as [->|M2]; [simpl_ne; reflexivity|].
+      destruct (N.eqb_spec y ne) as [->|M3]; [simpl_ne; reflexivity|]. simpl_ne. reflexivity.
+Qed.
+
 End CollapseTopo.
